@@ -1,4 +1,5 @@
 import Proofs.Tokens
+import Proofs.Pagination
 /-! C10 — pagelink pagination uses the same token scheme as C09; every token it issues is
     `buildToken i path` and is parsed back to the same pair on resume. -/
 namespace Traph.Props
@@ -15,5 +16,15 @@ theorem C10_tokenOf_total (i p : Nat) : tokenOf (some i) (some p) = .ok (buildTo
 /-- no switch set is refused with the library's own error, whatever the state -/
 theorem C10_refuses_no_switch (s : State) (w : Nat) (ps : List Bytes) (k : Option Nat) (t : Option Bytes) :
     s.paginateLinks w ps false false k t = .error .traph := rfl
+
+/-- the source pages are visited in the same resumable in-order walk as C09: resuming from the token of any
+    visited page (link-bearing or not) continues with exactly the later pages -/
+theorem C10_resume {s : State} {a : Nat} {l c r : T} {lo hi : Option Stem}
+    (hr : Rep s (.node a l c r)) (ho : OrdT s (.node a l c r) lo hi) (hw : AllWf s (.node a l c r))
+    (hsz : (T.node a l c r).size ≤ s.trie.size) (startLru : Bytes) {b0 : Nat} {cur0 : Bytes} {p0 : Nat}
+    (hmem : (b0, cur0, p0) ∈ (T.node a l c r).weInorder s a (lruDirname startLru) 0) :
+    s.weInorder a startLru (some p0)
+      = some (((T.node a l c r).weInorder s a (lruDirname startLru) 0).filter (fun it => lexLt cur0 it.2.1)) :=
+  weInorder_resume hr ho hw hsz startLru hmem
 
 end Traph.Props
